@@ -4,7 +4,7 @@ import re
 from analysis import (Prov, Guards, fmt, walk, roots, short, comparison, linear, normalised_cmp, must_pass,
                       path_to, describe_path, find_calls, callee_matches, contains_call, _lin_add)
 from facts import AnchorError
-from harness import Rule
+from harness import Rule, guarded
 
 PID = "C15"
 EXPLANATION = (
@@ -390,4 +390,5 @@ def r3(ctx):
 
 
 def run(ctx):
-    return [r1(ctx), r2(ctx), r3(ctx)]
+    G = lambda l, f, *a: guarded("C15." + l, f, ctx, *a)
+    return G("R1", r1) + G("R2", r2) + G("R3", r3)
